@@ -188,7 +188,9 @@ func raceMdnsTrial(seed int64) {
 	run(func(r *rand.Rand, i int) {
 		ski := fmt.Sprintf("ski%d", 1+r.Intn(3))
 		el := map[string]string{"txtvers": "1", "id": "id-" + ski, "path": "/ship/", "ski": ski, "register": "false"}
-		m.VerifResolve(el, "svc-"+ski, "host.local", []net.IP{net.ParseIP("192.168.1.7")}, 4711, r.Intn(4) == 0)
+		// several addresses per service, announced one after the other (as Avahi does): entries are merged
+		ip := net.ParseIP(fmt.Sprintf("192.168.1.%d", 7+r.Intn(6)))
+		m.VerifResolve(el, "svc-"+ski, "host.local", []net.IP{ip}, 4711, r.Intn(8) == 0)
 	})
 	run(func(r *rand.Rand, i int) { _ = m.QRCodeText() })
 	wg.Wait()
